@@ -543,7 +543,11 @@ def r01n(ctx, rep, rule="R01n", only=None):
             if not any(bb in body for bb in feeds):
                 continue
             n += 1
-            if not any(c == "marwood::cell::Cell::is_unquote" for bb, c in cs):
+            walkers = {x[0] for x in TEMPLATE_WALKERS}
+            tests = any(c == "marwood::cell::Cell::is_unquote" or (
+                c.startswith("marwood::") and c not in walkers and
+                "marwood::cell::Cell::is_unquote" in ctx["cg"].reachable_from([c], avoid=list(walkers))) for bb, c in cs)
+            if not tests:
                 bad = h
         if bad is not None:
             rep.fail(rule, key, "%s walks the cdr chain of a template element by element without testing each position for "
